@@ -153,6 +153,8 @@ def _small_c01(tier, seed, shard=(0, 1)):
                      _vol("VOL B", [_sample("HAT", 10, 5, sectors=[40, 12, 33][:1])], typ=1)]},
         {"volumes": [_vol("LAST", [_sample("X1", 5000, 6, sectors=[6, 5]), {"name": "PROG", "type": 0xF0, "data": [0] * 200},
                                    _sample("X2", 20, 7)], dir_sectors=[31])]}]})
+    # names with a period INSIDE (the AKAI character set has one): the name is kept whole, `.wav` is appended, not substituted
+    cases.append({"partitions": [{"volumes": [_vol("V.1", [_sample("SNARE.2", 30, 41), _sample("TOM 1.5", 31, 42), _sample("TOM 1.75", 32, 43), _sample("A.B.C", 9, 44)])]}]})
     rnd = random.Random(1000 + seed)
     n_random = 12 if tier == "quick" else 150
     for _ in range(n_random):
